@@ -268,7 +268,7 @@ impl Sim {
             ["probe", name] => {
                 let Some(h) = self.h.get_mut(*name) else { return "nocore".into() };
                 let Some(core) = h.core.as_mut() else { return "nocore".into() };
-                let idx = probe_indices(h.oracle.len.max(core.info().length));
+                let idx = probe_indices(core.info().length);
                 let s = Self::probe_core(core, &idx);
                 let ev = Self::drain(h);
                 let _ = ev; // probes are never issued while subscribers are attached
@@ -282,7 +282,7 @@ impl Sim {
                 // has() on every index below length + two following pages' boundaries; digest only
                 let Some(h) = self.h.get_mut(*name) else { return "nocore".into() };
                 let Some(core) = h.core.as_mut() else { return "nocore".into() };
-                let len = core.info().length.max(h.oracle.len);
+                let len = core.info().length;
                 let mut bad: Option<u64> = None;
                 let mut hsh: u64 = 0xcbf29ce484222325;
                 let mut idx: Vec<u64> = (0..len + 2).collect();
